@@ -625,8 +625,8 @@ func check(args []string) int {
 		fmt.Fprintln(os.Stderr, err)
 		return 2
 	}
-	fmt.Fprintf(os.Stderr, "verif: %s %s: %d runs, %d distinct traces, %d steps, %.0f s fake time, wall %.1fs, deaths %v, violations %d, known %v\n",
-		*prop, *tier, a.evaluations, len(a.traces), a.steps, float64(a.simNs)/1e9, wall, a.deaths, len(reported), a.knownHit)
+	fmt.Fprintf(os.Stderr, "verif: %s %s: %d runs, %d distinct traces, %d steps, %.0f s fake time, wall %.1fs, hangs %d, deaths %v, violations %d, known %v\n",
+		*prop, *tier, a.evaluations, len(a.traces), a.steps, float64(a.simNs)/1e9, wall, a.hangs, a.deaths, len(reported), a.knownHit)
 	return exit
 }
 
